@@ -63,15 +63,8 @@ package disk
 //@   loop 0 invariant cnt: missing == nncount(elems(blobs), lo(blobs), rangeindex + 1) && 0 <= missing
 //@   loop 0 modifies c.lru.ll.seq, elems(blobs), hitN, hitSize
 
-// A worker nils the slot only if the backend said "present", and reports a miss
-// through onProxyMiss otherwise; it always signals completion exactly once.
-//@ ghost wgDone Int
-//@ ghost missCalls Int
-//@ func (c *diskCache) containsWorker()
-//@   serves C06 C10 C18
-//@   requires c != nil && c.proxy != nil && c.accessLogger != nil
-//@   allowpanic
-//@   call Contains#* asserts[C10] asksdigest: arg2 == 1
+// containsWorker (the backend worker goroutine) is NOT under contract: the values it receives
+// over containsQueue are produced by another goroutine and channel contents are not modelled.
 
 //@ func (c *diskCache) FindMissingCasBlobs(ctx context.Context, blobs []*pb.Digest) ([]*pb.Digest, error)
 //@   serves C10
